@@ -93,7 +93,8 @@ def _run(params, values):
     elif t == "":
         return [], "assume: empty"
     tpl, inline = CONTEXTS[ctx]
-    src = tpl.format(esc(t))
+    pre_, post_ = tpl.split("{}")
+    src = pre_ + esc(t) + post_
     try:
         out = render_nn(md, src, inline_mode=inline)
     except Exception as e:
@@ -121,7 +122,8 @@ def _ref_run(params, values):
         pass
     ctx = params["ctx"]
     tpl, inline = CONTEXTS[ctx]
-    src = tpl.format("a" + ref + "b")
+    pre_, post_ = tpl.split("{}")
+    src = pre_ + "a" + ref + "b" + post_
     try:
         out = render_nn(md, src, inline_mode=inline)
     except Exception as e:
